@@ -54,7 +54,10 @@ def record(binp, seed, case_no, scratch, known, classes):
                     cur_op = None  # the retry of an op is not a target in the recording pass
             continue
         if in_window and cur_op is not None and cur_op >= 0:
-            positions.append((cur_op, cur_name, name, ordinal[name]))
+            # "commit" positions: syscalls on the version file / the current pointer / its temp file, i.e. inside the
+            # step that makes an operation take effect - where memory and disk can come apart
+            commit = re.search(r'/(v\d+|current|\.tmp[^/">]*)[">]', rest) is not None
+            positions.append((cur_op, cur_name, name, ordinal[name], commit))
     return base, positions
 
 
@@ -122,7 +125,17 @@ def main():
         # seeded shuffle: within a time budget every kind of call and every phase of it gets its share of injections
         # (in history order the budget would be spent on the first few flushes)
         random.Random(seed * 1000003 + case_no).shuffle(positions)
-        for (op, opname, cls, ordn) in positions:
+        # half of the budget goes to the commit positions (a minority of all positions), interleaved 1:1
+        com = [p for p in positions if p[4]]
+        oth = [p for p in positions if not p[4]]
+        positions = []
+        while com or oth:
+            if com:
+                positions.append(com.pop())
+            if oth:
+                positions.append(oth.pop())
+        bump("commit_positions", sum(1 for p in positions if p[4]))
+        for (op, opname, cls, ordn, commit) in positions:
             errnos = classes[cls] if all_errnos else [classes[cls][ordn % len(classes[cls])]]
             for errno in errnos:
                 if time.time() - t0 > limit:
@@ -142,6 +155,8 @@ def main():
                 bump("injected_runs")
                 bump(f"inject:{cls}:{errno}")
                 bump(f"during:{opname}")
+                if commit:
+                    bump("injected_at_commit_positions")
                 if not os.path.exists(result):
                     # the process died (abort / poisoned lock escalating): the tree did not remain usable
                     r = {"violation": {"tags": ["C16"], "sig": f"fault:process-died:{opname}", "msg": f"faultrun exited with {p.returncode} and no result: {p.stderr[-400:]}"}, "failed_calls": []}
